@@ -6,7 +6,7 @@ CONSTANTS
   NCh = 1
   BitsSel = "0-2-4-8"
   CMin = 1
-  CMax = 14
+  CMax = 10
   Extra = 0
 INVARIANT InvLayerComposition
 INVARIANT InvLayerPromotes
